@@ -1,10 +1,12 @@
 #!/bin/bash
-# usage: try_mutation.sh <PROP> <patch.diff> [tier]   -- applies the patch to /repo, runs the check, reverts
+# usage: try_mutation.sh <PROP> <patch.diff> [tier]
+# Runs the check against a scratch worktree of /repo's HEAD with the patch applied (PARGLARE_REPO),
+# so that /repo itself is never touched; the worktree is removed afterwards.
 set -u
-PROP=$1; PATCH=$2; TIER=${3:-quick}
-cd /repo || exit 2
-git apply "$PATCH" || { echo "PATCH DOES NOT APPLY"; exit 2; }
+PROP=$1; PATCH=$(readlink -f "$2"); TIER=${3:-quick}
+W=/tmp/trymut-$$
+git -C /repo worktree add -q --detach "$W" HEAD || exit 2
+( cd "$W" && git apply "$PATCH" ) || { echo "PATCH DOES NOT APPLY"; git -C /repo worktree remove --force "$W"; exit 2; }
 cd /verif
-timeout 3600 ./check "$PROP" --tier "$TIER" 2>&1 | grep -E "VIOLATION|KNOWN-FINDING|^C[0-9]+ (quick|thorough)" | cut -c1-220
-git -C /repo checkout -- .
-git -C /repo status --short | grep -v "^??" | head -3
+PARGLARE_REPO="$W" timeout 7200 ./check "$PROP" --tier "$TIER" 2>&1 | grep -E "VIOLATION|KNOWN-FINDING|HARNESS|^C[0-9]+ (quick|thorough)" | cut -c1-220
+git -C /repo worktree remove --force "$W"
